@@ -270,6 +270,33 @@ Theorem c09_silent_peer_undetected_refuted : forall now timeout, receive_silent 
 Proof. exact silent_peer_undetected_refuted. Qed.
 Print Assumptions c09_silent_peer_undetected_refuted.
 
+(* ---- the listening table of the in-memory transport (seeded change C09-G) -------------------------------- *)
+
+Theorem c09_stale_stop_harmless : forall tb l, ll_on l = false -> ll_stop false tb l = (tb, l).
+Proof. exact stale_stop_harmless. Qed.
+Print Assumptions c09_stale_stop_harmless.
+
+Theorem c09_restart_survives_old_stop : forall addr, restart_then_stop_old false addr = Some 2.
+Proof. exact restart_survives_old_stop. Qed.
+Print Assumptions c09_restart_survives_old_stop.
+
+Theorem c09_old_stop_unregisters_successor_refuted : forall addr, restart_then_stop_old true addr = None.
+Proof. exact old_stop_unregisters_successor_refuted. Qed.
+Print Assumptions c09_old_stop_unregisters_successor_refuted.
+
+(* ---- TCPConn.Send's mutex (seeded change C09-H) -------------------------------------------------------------- *)
+
+Theorem c09_conn_send_well_bracketed : forall ok, wfp false (conn_send_prog ok false).
+Proof. exact conn_send_well_bracketed. Qed.
+Print Assumptions c09_conn_send_well_bracketed.
+
+Theorem c09_send_mutex_leak_refuted :
+  exists s, mrun (mkM None [conn_send_prog false true; conn_send_prog true true]) [0; 0] = Some s /\
+            nth_error (progs s) 0 = Some [] /\ mtx s = Some 0 /\
+            mstep s 1 = None /\ nth_error (progs s) 1 <> Some [].
+Proof. exact send_mutex_leak_refuted. Qed.
+Print Assumptions c09_send_mutex_leak_refuted.
+
 (* ---- classifier ---------------------------------------------------------------------------------------- *)
 
 Theorem c09_classifier_total : forall c,
